@@ -554,7 +554,8 @@ impl Property for C09 {
                 }
                 if rng.chance(1, 8) {
                     let at = rng.urange(0, sc.script.len());
-                    sc.script.insert(at, ReadStep::Fail(*rng.pick(&ErrKind::ALL)));
+                    let k = *rng.pick(&ErrKind::ALL);
+                    sc.script.insert(at, if rng.chance(1, 3) { ReadStep::FailForever(k) } else { ReadStep::Fail(k) });
                 } else if rng.chance(1, 10) {
                     let at = rng.urange(0, sc.script.len());
                     sc.script.insert(at, ReadStep::Eof);
